@@ -385,6 +385,66 @@ def two_timer_case(ctx, rng):
                       {"fired": firedB, "expected": want, "optional": optional}, case)
 
 
+def attribute_cases(ctx, rng):
+    """(a) two timers built with the SAME args list / kwargs dict, one stopped while the other is pending: the survivor
+    still fires with the given arguments; (b) the public auto_restart flag reassigned after construction: a periodic timer
+    whose callback clears it on its k-th tick fires exactly k times, a one-shot timer switched to periodic keeps firing"""
+    K = kern.RealK.load()
+    from onl.utils import Timer
+    env = K.Environment()
+    shared, kw = [rng.choice([7, "x", 0])], {"k": rng.choice([1, None])}
+    given = (tuple(shared), dict(kw))          # what was given, noted before anything can tamper with the caller's objects
+    log = []
+    T = {}
+    tau_a, tau_b = rng.choice([3, 5]), rng.choice([6, 8, 10])
+    T["a"] = Timer(env, tau_a, lambda *a, **k: log.append(("a", env.now, a, dict(k))), args=shared, kwargs=kw)
+    T["b"] = Timer(env, tau_b, lambda *a, **k: log.append(("b", env.now, a, dict(k))), args=shared, kwargs=kw)
+    t_stop = rng.choice([1, 2, 2.5])
+
+    def stopper(env):
+        yield env.timeout(t_stop)
+        T["a"].stop()
+    env.process(stopper(env))
+    kmax = rng.randint(1, 4)
+    tau_p = rng.choice([1, 2.5])
+    ticks = []
+
+    def tick():
+        ticks.append(env.now)
+        if len(ticks) == kmax:
+            T["p"].auto_restart = False          # the last tick
+    T["p"] = Timer(env, tau_p, tick, auto_restart=True)
+    made_periodic = []
+    T["q"] = Timer(env, 50, lambda: made_periodic.append(env.now))
+
+    def switcher(env):
+        yield env.timeout(4)
+        T["q"].auto_restart = True
+        T["q"].restart(3)
+    env.process(switcher(env))
+    case = {"probe": "timer_attributes", "tau_a": tau_a, "tau_b": tau_b, "t_stop": t_stop, "kmax": kmax, "tau_p": tau_p}
+    ctx.count("timer_attribute_cases")
+    try:
+        env.run(until=20)
+    except BaseException as e:
+        ctx.violation(f"exception:{type(e).__name__}@timer-attributes", "the run raised", repr(e)[:200], case)
+        return
+    want = [("b", tau_b, given[0], given[1])]
+    if log != want:
+        ctx.violation("fired-with-wrong-arguments[args object shared by two timers]" if [x[:2] for x in log] == [x[:2] for x in want] else "expiry-missed[args object shared by two timers]",
+                      "of two timers built with the same args / kwargs objects one was stopped; the other must still fire with the given arguments",
+                      {"fired": repr(log), "expected": repr(want)}, case)
+    want_ticks = [tau_p * (k + 1) for k in range(kmax)]
+    if ticks != want_ticks:
+        ctx.violation("fired-after-auto-restart-was-cleared" if len(ticks) > kmax else "expiry-missed[auto_restart reassigned]",
+                      "a periodic timer whose callback clears auto_restart on its k-th tick must fire exactly k times",
+                      {"ticks": ticks[:10], "expected": want_ticks}, case)
+    want_q = [7, 10, 13, 16, 19]
+    if made_periodic != want_q:
+        ctx.violation("expiry-missed[auto_restart reassigned]", "a one-shot timer switched to periodic and restarted must fire every timeout thereafter",
+                      {"fired": made_periodic, "expected": want_q}, case)
+
+
 def unreferenced_timer_probe(ctx):
     """a fire-and-forget Timer(env, tau, cb): the caller keeps no handle; it fires all the same"""
     import gc
@@ -413,6 +473,8 @@ def run_shard(ctx):
         unreferenced_timer_probe(ctx)
     for j in range(150 if ctx.tier == "quick" else 3000):
         two_timer_case(ctx, ctx.rng("two", j))
+        if j % 5 == 0:
+            attribute_cases(ctx, ctx.rng("attr", j))
     for i in ctx.cases(ncases(ctx.tier)):
         case = gen_case(ctx.rng(i), i)
         viol, nt = one_case(ctx, case)
